@@ -331,6 +331,19 @@ def _check_registration(r, loop, head_var, key_txt, where):
             rf"self\._active_heads_per_symbol\.setdefault\({re.escape(key_txt)}, \{{\}}\)", unparse(stores[0].targets[0].value)
         ) is not None
     )
+    if ok:
+        g = cfgmod.build_region(loop.body)
+        sn = [n for n in g.nodes if n.ast is stores[0]]
+        seen = g.reach([g.entry], avoid_nodes=sn)
+        leaked = [e.tag for e in g.all_exits() if e in seen]
+        r.check(
+            not leaked,
+            f"{where}: every iteration registers its head",
+            f"{where}:registration-all-paths",
+            f"{where}: some path through the loop body (exit {leaked}) skips the registration of the head: a "
+            "lookahead token / possible lookahead is silently dropped",
+            node=loop,
+        )
     r.check(
         ok,
         f"{where}: each head is registered under [lookahead][state id]",
